@@ -8023,7 +8023,7 @@ void SoPlexBase<R>::_changeElementReal(int i, int j, const R& val)
    }
    else if(_hasBasis)
    {
-      if(_basisStatusRows[i] != SPxSolverBase<R>::BASIC && _basisStatusCols[i] == SPxSolverBase<R>::BASIC)
+      if(_basisStatusRows[i] != SPxSolverBase<R>::BASIC && _basisStatusCols[j] == SPxSolverBase<R>::BASIC)
          _hasBasis = false;
    }
 
